@@ -32,6 +32,7 @@ type SpecEnv struct {
 	fc      *frameCtx
 	li      *loopInfo
 	fnName  string
+	loopBound *Term
 }
 
 func (env *SpecEnv) child() *SpecEnv {
@@ -165,6 +166,9 @@ func (env *SpecEnv) evalLazy(e Expr) specVal {
 			if k, ok := obj.(*types.Const); ok {
 				return env.constVal(k)
 			}
+		}
+		if env.li != nil {
+			specFail("unknown identifier %q in %s (loop %d, header block %d)", x.Name, env.fnName, env.li.ordinal, env.li.header.Index)
 		}
 		specFail("unknown identifier %q in %s", x.Name, env.fnName)
 	case *EOld:
@@ -618,6 +622,16 @@ func (env *SpecEnv) evalCall(x *ECall) specVal {
 				bound = env.old.st.alloc
 			}
 			return specVal{v: leaf(c.Ge(c.Root(v), bound)), t: types.Typ[types.Bool]}
+		case "loopfresh":
+			// allocated since the entry of the loop whose invariant this is (or nil)
+			v := env.evalTerm(x.Args[0])
+			if v.Sort == SSlice {
+				v = c.SArr(v)
+			}
+			if env.loopBound == nil {
+				specFail("loopfresh() outside a loop invariant")
+			}
+			return specVal{v: leaf(c.Or(c.Eq(v, c.Nil()), c.Ge(c.Root(v), env.loopBound))), t: types.Typ[types.Bool]}
 		case "root":
 			v := env.evalTerm(x.Args[0])
 			if v.Sort == SSlice {
